@@ -59,6 +59,7 @@ def gen_cases(tier, seed):
         stop = None if rng.random() < 0.3 else pick(rng.choice([0.1, 0.25]))
         ml = rng.choice([None, None, -1, 0, 1, 2, 3, 4, gen.theight(t), gen.theight(t) + 1])
         cases.append(mk(t, filt, stop, ml, embed=rng.random() < 0.3))
+    gen.sprinkle_adv(cases)
     dist = {"exhaustive_cases": nexh, "random_cases": nrand, "by_tree_size": {}, "maxlevel": {}}
     for c in cases:
         k = str(gen.tsize(c["tree"]))
